@@ -283,14 +283,16 @@ bool Session::process(const f8String& from)
 
 	try
 	{
-		const f8String::size_type fpos(from.find("34="));
+		// MsgSeqNum is the field whose tag is 34: look for "34=" at the start of a field, not inside another field's value
+		static const char seqnum_tag[] { default_field_separator, '3', '4', '=', 0 };
+		const f8String::size_type fpos(from.find(seqnum_tag));
 		if (fpos == f8String::npos)
 		{
 			slout_debug << "Session::process throwing for " << from;
 			throw InvalidMessage(from, FILE_LINE);
 		}
 
-		seqnum = fast_atoi<unsigned>(from.data() + fpos + 3, default_field_separator);
+		seqnum = fast_atoi<unsigned>(from.data() + fpos + 4, default_field_separator);
 
 		bool retry_plog(false);
 		if (_plogger && _plogger->has_flag(Logger::inbound))
